@@ -10,16 +10,17 @@ LEVEL = 'proof'
 TIE = {'approval.ProportionalApproval / SequentialProportionalApproval': 'correspondence',
        'convert.ScoreToSimpleVotes (corrections, truncation, aggregation), cardinal.ScoreVoting, MajorityJudgment (default, plus)': 'correspondence',
        'cardinal.STAR (default configuration; Schulze run-off with the candidate order of the pairwise dictionary, results compared as sets)': 'correspondence',
-       'cardinal.AllocatedScoreSelector / AllocatedScoreDistributor (prev_gains, max_seats; the iteration order of a Tie frozenset is an argument of the model, read off Python per candidate set)': 'correspondence'}
+       'cardinal.AllocatedScoreSelector / AllocatedScoreDistributor (prev_gains, max_seats; the iteration order of a Tie frozenset is an argument of the model, read off Python per candidate set)': 'correspondence',
+       'wave 6: the flagged definitions of the repaired code (Cardinal.v correct_scores_x / aggregate_one_w / mj_default_x / majority_judgment_x, AllocScore.v fraction_out_r / round_scores / alloc_select_x) through wire units 192..195; flags set by behavioural probes of the library under test': 'correspondence'}
 RULE = ('corpus; approval profiles over 2..6 candidates (1..7 distinct ballots, weights 1..5) x n 1..|C| through PAV (fresh object per '
         'call and a shared object) and SPAV; score profiles over 2..5 candidates, grades 0..5, partial ballots, through ScoreVoting and '
         'MajorityJudgment with function in {mean,sum,median_low}, unscored_value in {None,0,min}, min_count in {0,2}, truncation in {0,1,1/10}, '
-        'tie_breaking in {default,plus}; a single-seat stream of complete ballots with grades 0..2 (level medians, close STAR run-offs); n-seat boundary streams mj-seats-level (few grades / end-mutated copies of one grade column: equal medians at the cut, long common removal prefixes, multi-copy steps) and star-seats (tied finalist cuts, unseparated finalists, 3..5-member run-offs), both judged by independent references of the proved statements (removal-sequence order, plus counts, Schulze over the run-off supports); STAR through the model and (run-off of two) a reference; allocated score (selector; distributor with prev_gains / max_seats; Hare and Droop; 1..m seats; integer and fractional weights; few-grade profiles with level leaders) through Model/AllocScore.v - order of election and exception class compared exactly - and against an independent Python reference. Declarative '
+        'tie_breaking in {default,plus}; a single-seat stream of complete ballots with grades 0..2 (level medians, close STAR run-offs); n-seat boundary streams mj-seats-level (few grades / end-mutated copies of one grade column: equal medians at the cut, long common removal prefixes, multi-copy steps) and star-seats (tied finalist cuts, unseparated finalists, 3..5-member run-offs), both judged by independent references of the proved statements (removal-sequence order, plus counts, Schulze over the run-off supports); STAR through the model and (run-off of two) a reference; allocated score (selector; distributor with prev_gains / max_seats; Hare and Droop; 1..m seats; integer and fractional weights; few-grade profiles with level leaders) through Model/AllocScore.v - order of election and exception class compared exactly - and against an independent Python reference; score-counted: ballot counts around 10^12 and 10^25 + 7 with one-vote differences through the counted aggregates (run-length references). Declarative '
         'clauses on implementation outputs: PAV committee = unique brute-force maximiser of the harmonic satisfaction (refusal iff not unique) '
         'and satisfies justified representation; SPAV round = unique argmax. non-trivial = more than two ballots; distinct by case hash')
-PARTIAL = ['allocated score: the clause is proved for every round without a tie and positive ballot weights; rounds with level leaders follow the code (all elected in set-iteration order, or one tie entry for several seats: C12_alloc_tie_*_refuted) and the ValueError of the subtraction loop is characterised exactly (crash_cond, C12_alloc_crash_refuted)',
+PARTIAL = ['allocated score (repaired, wave 6): the clause is proved for every round without a tie and positive ballot weights, the loop has no error outcome (C12_alloc_answers) and the selector returns a well-shaped selection (C08_shape_allocated_score); rounds with level leaders follow the code - all seated in set-iteration order without re-running the maximum (C12_alloc_tie_second_refuted, C10_allocated_score_tie_order_refuted: known findings left to the maintainers)',
            'STAR: proved for the default configuration (run-off of n + 1, unscored below every scored candidate): table = supports, exact short class, complete one-seat table, Schulze over the table for n seats (C12_star_*); a configured unscored_value / other run-off sizes are judged by the Python reference only',
-           'MJ for n seats: the theorems (C12_mj_seats_*) are about answers; StatisticsError / VotingSystemError (reference order undefined at the cut) and the sufficiency of the fuel are compared, not proved',
+           'MJ for n seats: the theorems (C12_mj_seats_*, repaired: C12_mj_exhausted_*) are about answers; that a separated top-n set always gets an answer (completeness; VotingSystemError only for a lasting tie) and the sufficiency of the fuel are compared, not proved',
            'score voting: a non-integer truncation >= 1 is floored by the model (outside the quantified settings)']
 TRUSTED = []
 _shared = {}
